@@ -479,7 +479,19 @@ impl num::Float for Q {
                 let r = self.get().unwrap();
                 if n >= 0 { Q::from_ratio(num::pow(r, n as usize)) } else { Q::one() / Q::from_ratio(num::pow(r, (-n) as usize)) }
             }
-            _ => q_unimpl(),
+            Q::NaN => Q::NaN,
+            // IEEE: inf^0 = 1, (+-inf)^n = +-inf by parity for n > 0, 0 for n < 0
+            _ => {
+                if n == 0 {
+                    Q::one()
+                } else if n < 0 {
+                    Q::zero()
+                } else if matches!(self, Q::NInf) && n % 2 != 0 {
+                    Q::NInf
+                } else {
+                    Q::PInf
+                }
+            }
         }
     }
     fn powf(self, _n: Q) -> Q { q_unimpl() }
@@ -528,6 +540,10 @@ impl num::Float for Q {
     fn tanh(self) -> Q {
         lift1(self, |r| {
             if r.is_zero() { return Q::zero(); }
+            // |x| >= 80: 1 - |tanh x| < 2 e^-160 < 2^-230, below the 2^-192 accuracy of the irrational functions
+            if r.abs() >= BigRational::from_integer(BigInt::from(80)) {
+                return if r.is_positive() { Q::one() } else { -Q::one() };
+            }
             let e = fx_exp(&(r * BigRational::from_integer(BigInt::from(2))));
             Q::from_ratio((&e - BigRational::one()) / (&e + BigRational::one()))
         }, Q::one(), -Q::one())
